@@ -305,6 +305,18 @@ func runC12(w *World, tr *Trace) {
 					images = append(images, img{dir, nextSeq(), ev.Op + " " + filepath.Base(ev.Path)})
 					w.FaultFired("crash_image")
 				}
+			} else if ev.Op == "write" && ev.Len > 8 && imgRng.Float64() < pImg {
+				// the process dies in the middle of a log write: the image ends inside a frame (a torn tail), typically
+				// inside one of the cascade's own unlink records that follow the VDEL
+				k := 1 + imgRng.Intn(ev.Len-1)
+				what := fmt.Sprintf("%s %s torn at %d of %d", ev.Op, filepath.Base(ev.Path), k, ev.Len)
+				return verifos.Action{Tear: k, Mid: func() {
+					dir := filepath.Join(w.Scratch, fmt.Sprintf("c12img%02d", len(images)+1))
+					if err := copyTree(w.Dir, dir); err == nil {
+						images = append(images, img{dir, nextSeq(), what})
+						w.FaultFired("crash_image_torn_write")
+					}
+				}}
 			}
 			return verifos.Action{}
 		}
